@@ -144,6 +144,7 @@ OPS = {
     "Select", "Where", "SelectMany", "First", "Count", "Sum", "Max", "Min", "Aggregate",
     "len", "abs", "MetaData", "EventDataset",
 } | RESULTS
+OPERATOR_FUNCTION_KEYWORD = {"Select": "f", "SelectMany": "func", "Where": "filter"}
 SEQ_METHODS = {"Select", "Where", "SelectMany", "First", "Count", "Sum", "Max", "Min", "Aggregate"}
 
 BIN = {
@@ -177,6 +178,14 @@ class Ev:
             if name in b:
                 return True
         return name in self.glob
+
+    def _operator_keywords(self, name, n, env, nseq=1):
+        """the function of Select / SelectMany / Where may be given under the name ObjectStream declares for it"""
+        if not n.keywords:
+            return []
+        if len(n.keywords) == 1 and len(n.args) == nseq and n.keywords[0].arg == OPERATOR_FUNCTION_KEYWORD.get(name):
+            return [self.ev(n.keywords[0].value, env)]
+        raise EvalError("keywords on operator")
 
     def seqop(self, name, seq, args):
         if name in ("Select", "Where", "SelectMany"):
@@ -242,9 +251,7 @@ class Ev:
             if isinstance(f, ast.Name) and f.id in OPS and not self._bound(f.id, env):
                 if f.id == "EventDataset":
                     return Seq(self.dataset)
-                if n.keywords:
-                    raise EvalError("keywords on operator")
-                args = [self.ev(a, env) for a in n.args]
+                args = [self.ev(a, env) for a in n.args] + self._operator_keywords(f.id, n, env)
                 if f.id == "MetaData":
                     return args[0]
                 if f.id == "abs":
@@ -257,9 +264,7 @@ class Ev:
             if isinstance(f, ast.Attribute) and f.attr in SEQ_METHODS:
                 recv = self.ev(f.value, env)
                 if isinstance(recv, (list, LazySeq)):
-                    if n.keywords:
-                        raise EvalError("keywords on operator")
-                    return self.seqop(f.attr, recv, [self.ev(a, env) for a in n.args])
+                    return self.seqop(f.attr, recv, [self.ev(a, env) for a in n.args] + self._operator_keywords(f.attr, n, env, 0))
                 fn = getattr(recv, f.attr)
             else:
                 fn = self.ev(f, env)
